@@ -79,10 +79,13 @@ def task_init_group(pr, repo):
         for lst in ('none', 'hit', 'chain-miss', 'number-miss', 'icode-miss', 'empty', 'symbolic'):
             def thunk(ex, ctx, rtype=rtype, lst=lst):
                 chain, num, ic = 'E', 48, 'A'
-                at = record('at', A, chain_id=chain, res_num=num, icode=ic)
-                t0 = B('titratable_after_setup')
+                bridge = B('bridge')
+                has_pka = B('model_pka_set')
+                at = record('at', A, chain_id=chain, res_num=num, icode=ic, cysteine_bridge=bridge)
+                # what Group.setup leaves: titratable <=> model pKa known and not disulfide-bridged (C01-SU)
+                t0 = And(has_pka, Not(bridge))
                 g = record('g', G, atom=at, residue_type=rtype, titratable=False, exclude_cys_from_results=False, parameters=None,
-                           pka_value=R('pka'))
+                           pka_value=R('pka'), model_pka_set=has_pka)
 
                 def setup(ex):
                     g.attrs['titratable'] = t0
